@@ -189,7 +189,7 @@ def drv_names(c, ctx, col):
     from formulaic.parser.types import Factor
 
     name = "".join(c.seq(NAME_CHARS, ctx["L"], 1))
-    form = c.pick(NAME_FORMS if len(name) <= 3 else ctx["forms_len4"])
+    form = c.pick(NAME_FORMS if len(name) < ctx["L"] or ctx["L"] < 3 else ctx["forms_longest"])
     fname, tmpl, lookups, pyexpr, expect = form
     if "\\" in name:
         col.count("unspecified:back-slash-in-name")
@@ -616,20 +616,21 @@ def subchecks(tier, seed):
         Sub("ws-grammar-2", drv_ws_grammar, {"k": 2, "kmin": 2, "leaves": ["`x y`", "f(a)"] if quick else leaves_all[:5], "ws": WS[:2],
                                              "lead_trail": False}, shard_depth=4,
             bounds={"binary_operators": 2, "leaves": ["`x y`", "f(a)"] if quick else leaves_all[:5], "white_space": ["", " "]}),
-        Sub("names", drv_names, {"L": 3 if quick else 4, "forms_len4": [f for f in NAME_FORMS if f[0] in ("alone", "star", "call", "brace-twice")]},
+        Sub("names", drv_names, {"L": 3 if quick else 4, "forms_longest": [f for f in NAME_FORMS if f[0] in ("alone", "star", "call", "brace-twice")]},
             shard_depth=3, bounds={"alphabet": NAME_CHARS, "max_length": 3 if quick else 4, "forms": [f[1] for f in NAME_FORMS],
-                                   "forms_at_length_4": ["`%s`", "`%s`*zz", "double(`%s`)", "{`%s` * `%s`}"]}),
+                                   "forms_at_the_maximal_length": ["`%s`", "`%s`*zz", "double(`%s`)", "{`%s` * `%s`}"]}),
         Sub("python", drv_python, {"subset_bound": 8 if quick else 10}, shard_depth=2,
             bounds={"expressions": len(PY_EXPRS), "all_subsets_of_boundaries_up_to": 8 if quick else 10,
                     "beyond": "all single and pairwise insertions, none, all"}),
         Sub("spans24", drv_spans, {"alphabet": CHARS24, "L": 4}, shard_depth=3, bounds={"alphabet": "".join(CHARS24), "max_length": 4}),
-        Sub("spans14", drv_spans, {"alphabet": CHARS14, "L": 5 if quick else 6, "context_upto": 5}, shard_depth=3 if quick else 4,
-            bounds={"alphabet": "".join(CHARS14), "max_length": 5 if quick else 6, "error_context_checked_up_to_length": 5}),
+        Sub("spans14", drv_spans, {"alphabet": CHARS14, "L": 5 if quick else 6, "context_upto": 4 if quick else 5},
+            shard_depth=3 if quick else 4,
+            bounds={"alphabet": "".join(CHARS14), "max_length": 5 if quick else 6, "error_context_checked_up_to_length": 4 if quick else 5}),
     ]
     if quick:
         first = SIGMA_Q[seed % len(SIGMA_Q)]
         subs.append(Sub("ws-tokens-seed-slice", drv_ws_tokens_slice, {"sigma": SIGMA_Q, "first": first, "L": 5}, shard_depth=3,
-                        bounds={"alphabet": SIGMA_Q, "tokens": 5, "first_token": first,
+                        bounds={"alphabet": SIGMA_Q, "tokens": 5, "first_token": first, "white_space": ["", " "],
                                 "note": "VERIF_SEED-selected exhaustive slice of the thorough scope"}))
     else:
         subs.append(Sub("ws-tokens-5", drv_ws_tokens, {"sigma": SIGMA_Q, "L": 5, "Lmin": 5, "both_icpt_upto": 0}, shard_depth=3,
@@ -646,6 +647,6 @@ def drv_ws_tokens_slice(c, ctx, col):
         W.reference(tokens, include_intercept=True, avail=avail)
     except (W.Reject, W.Unspec):
         raise Skip()
-    variant = place(c, tokens, LT_SHORT)
+    variant = place(c, tokens, [("", "")], WS[:2])
     check_ws(col, "ws-tokens", tokens, variant, True, avail)
     col.sample({"tokens": tokens, "variant": variant})
